@@ -354,6 +354,57 @@ def k8sLoad (shard n : Int) : List Str → Except String (List Str)
       | .error e => .error e
       | .ok l => if s ≠ shard then .ok l else .ok (u :: l)
 
+/-! ## Stopping a k8s store: `objectStore.Stop`, `stopLimitStoreWithRetry`, the periodic flusher
+
+`NewK8sCacheStore` starts `go wait.Until(store.sync, syncPeriod, store.stopCh)` when `syncPeriod > 0`: the
+flusher goroutine writes the store's conditions to the API every period until `stopCh` is closed. `Stop()`
+flushes one last time, closes `stopCh`, stops the local store and only then sets `stopped`; a failed final flush
+returns the error with everything still running, and `stopLimitStoreWithRetry` tries again (10 attempts, 2 s
+apart). Meanwhile the store is already out of `limitStoreMap` (`stopLeading` deleted it first): what is held
+during the retries is the detached store object with its flusher. -/
+
+structure KStore where
+  periodic : Bool      -- syncPeriod > 0: the flusher goroutine was started
+  stopCh : Bool        -- stopCh is closed
+  stopped : Bool       -- the `stopped` flag
+  items : Nat          -- conditions of its own shard in the local store (what a flush writes)
+deriving Repr, DecidableEq
+
+/-- `NewK8sCacheStore` -/
+def newKStore (periodic : Bool) : KStore := { periodic := periodic, stopCh := false, stopped := false, items := 0 }
+
+/-- the flusher goroutine is alive: it was started and `stopCh` is open -/
+def KStore.flusherRunning (s : KStore) : Bool := s.periodic && !s.stopCh
+
+/-- `doSyncLocked()` returns nil: the API accepts writes, or there is nothing to write (no call is made) -/
+def KStore.flushOk (s : KStore) (apiOk : Bool) : Bool := apiOk || s.items == 0
+
+/-- invariant of `objectStore`: `stopped` is only ever set after `stopCh` was closed -/
+def KStore.WF (s : KStore) : Prop := s.stopped = true → s.stopCh = true
+
+/-- `objectStore.Stop()` while the API accepts (`apiOk`) or fails writes; `true` = nil was returned -/
+def KStore.stop (s : KStore) (apiOk : Bool) : KStore × Bool :=
+  if s.stopped then (s, true)
+  else if !s.flushOk apiOk then (s, false)
+  else ({ s with stopCh := true, stopped := true }, true)      -- localStore.Stop() returns nil
+
+/-- `stopLimitStoreWithRetry`: up to `fuel` (= 10) attempts; `api` says for each attempt whether the API accepts
+    writes (an exhausted script means yes). Answers the store, whether an attempt returned nil, and the number of
+    attempts made. -/
+def stopWithRetry : Nat → List Bool → KStore → KStore × Bool × Nat
+  | 0, _, s => (s, false, 0)
+  | fuel + 1, api, s =>
+    let r := s.stop (api.headD true)
+    if r.2 then (r.1, true, 1)
+    else
+      let q := stopWithRetry fuel api.tail r.1
+      (q.1, q.2.1, q.2.2 + 1)
+
+/-- `rateLimiter.stopLeading(shardId)` with a k8s store: the store leaves the map first, then is stopped with
+    retries. Answers the detached store after the retries and whether a `Stop` returned nil (`none`: no store). -/
+def stopLeadingK (api : List Bool) (st : Srv KStore) (s : Int) : Srv KStore × Option (KStore × Bool) :=
+  (stopLeading st s, (st.stores.get s).map fun k => let r := stopWithRetry 10 api k; (r.1, r.2.1))
+
 /-! ## A concrete store for the correspondence harness (local store, one global max-in-flight schema "fc"
     whose limit is never reached) -/
 
